@@ -164,6 +164,29 @@ def _nonempty_iter(fi, it):
     return False
 
 
+_NONE_TEST_CACHE = {}
+
+
+def _none_test(text):
+    """(V, is_none_on_true_branch, definite) for the test texts `V is None`, `V is not None`, `V` (truthiness: the true
+    branch implies non-None, the false branch implies nothing)."""
+    if text not in _NONE_TEST_CACHE:
+        out = None
+        try:
+            e = ast.parse(text, mode="eval").body
+        except SyntaxError:
+            e = None
+        if isinstance(e, ast.Name):
+            out = (e.id, False, False)
+        elif isinstance(e, ast.Compare) and len(e.ops) == 1 and isinstance(e.left, ast.Name) and isinstance(e.comparators[0], ast.Constant) and e.comparators[0].value is None:
+            if isinstance(e.ops[0], ast.Is):
+                out = (e.left.id, True, True)
+            elif isinstance(e.ops[0], ast.IsNot):
+                out = (e.left.id, False, True)
+        _NONE_TEST_CACHE[text] = out
+    return _NONE_TEST_CACHE[text]
+
+
 def feasible_unbound_path(fi, name, use_nid):
     """Is there a def-free path entry -> use that never takes two branches
     with the same test text and opposite outcomes (without a store to a name
@@ -220,6 +243,20 @@ def feasible_unbound_path(fi, name, use_nid):
     for n in cfg.nodes.values():
         if n.kind == "branch" and n.label in ("iter", "exhausted") and isinstance(n.test, ast.For) and _nonempty_iter(fi, n.test.iter):
             nonempty_for[n.id] = (n.label, "\0for%d" % id(n.test))
+    # a local that holds the constant None (`v = None`, no store since) cannot pass `v is not None` / `if v:`
+    none_tests = {}
+    for n in cfg.nodes.values():
+        if n.id in keys:
+            vt = _none_test(keys[n.id][0])
+            if vt is not None:
+                none_tests[n.id] = (vt[0], vt[1] if keys[n.id][1] else (not vt[1]) if vt[2] else None)
+    none_vars = {v for v, _ in none_tests.values()}
+    none_sets = {}
+    for n in cfg.nodes.values():
+        if n.kind == "stmt" and isinstance(n.ast, ast.Assign) and isinstance(n.ast.value, ast.Constant) and n.ast.value.value is None:
+            vs = {t.id for t in n.ast.targets if isinstance(t, ast.Name)} & none_vars
+            if vs:
+                none_sets[n.id] = vs
     start = (cfg.entry, frozenset())
     seen = {start}
     stack = [start]
@@ -227,16 +264,26 @@ def feasible_unbound_path(fi, name, use_nid):
         nid, facts = stack.pop()
         for s in cfg.g.successors(nid):
             f2 = facts
+            if s in none_tests:
+                v_, isnone_ = none_tests[s]
+                if isnone_ is False and ("\0none:" + v_, True) in facts:
+                    continue  # this edge needs v to be non-None, but v holds the constant None
+            if none_vars:
+                killed_ = {("\0none:" + v_, True) for v_ in (node_defs(s) & none_vars)} if cfg.nodes[s].kind != "branch" or cfg.nodes[s].label == "iter" else set()
+                if killed_:
+                    f2 = f2 - killed_
+                if s in none_sets:
+                    f2 = f2 | {("\0none:" + v_, True) for v_ in none_sets[s]}
             if s in nonempty_for:
                 lab_, key_ = nonempty_for[s]
                 if lab_ == "exhausted" and (key_, True) not in facts:
                     continue
                 if lab_ == "iter":
-                    f2 = facts | {(key_, True)}
+                    f2 = f2 | {(key_, True)}
             if s in keys:
                 t, lab, names = keys[s]
                 if t in relevant:
-                    d = dict(facts)
+                    d = dict(f2)
                     if t in d and d[t] != lab:
                         continue  # contradicts an earlier outcome of the same test
                     d[t] = lab
